@@ -45,6 +45,14 @@ def _build(kind, geo, tr=lambda x, y: (float(x), float(y))):
         return sg.MultiPolygon([sg.Polygon(parts[0][1]), sg.Polygon(parts[1][1], [parts[2][1]])])
     if kind == "collection":
         return sg.GeometryCollection([sg.Point(parts[0][1][0]), sg.LineString(parts[1][1]), sg.Polygon(parts[2][1])])
+    if kind == "collection_polys":
+        return sg.GeometryCollection([sg.Polygon(parts[0][1]), sg.Polygon(parts[1][1])])
+    if kind == "collection_lines":
+        return sg.GeometryCollection([sg.LineString(parts[0][1]), sg.LineString(parts[1][1])])
+    if kind == "collection_one":
+        return sg.GeometryCollection([sg.Polygon(parts[0][1])])
+    if kind == "collection_nested":
+        return sg.GeometryCollection([sg.Point(parts[0][1][0]), sg.GeometryCollection([sg.Polygon(parts[1][1]), sg.Polygon(parts[2][1])])])
     raise KeyError(kind)
 
 
@@ -94,15 +102,16 @@ def execute(c):
                 CRS(f"epsg:{d}").transformer_to_crs(CRS(f"epsg:{s}"), always_xy=False)
             unit = 1 / 1000 if s == "4326" else 10.0
             res = c["r"] * unit if c["r"] > 0 else None
+            wkw = {"wrapdateline": True} if c.get("wrap") else {}
             if c["r"] == -1:
                 # "auto": densified with the step the library itself picks, then every vertex mapped exactly
                 from odc.geo.geom import _auto_resolution
                 res = _auto_resolution(g)
-                out = g.to_crs(f"epsg:{d}", resolution="auto")
+                out = g.to_crs(f"epsg:{d}", resolution="auto", **wkw)
             else:
-                out = g.to_crs(f"epsg:{d}", resolution=res)
+                out = g.to_crs(f"epsg:{d}", resolution=res, **wkw)
             # asking to check-and-fix a result that is valid changes nothing
-            fixed = g.to_crs(f"epsg:{d}", resolution=("auto" if c["r"] == -1 else res), check_and_fix=True)
+            fixed = g.to_crs(f"epsg:{d}", resolution=("auto" if c["r"] == -1 else res), check_and_fix=True, **wkw)
             if out.geom.is_valid and not fixed.geom.equals_exact(out.geom, 0):
                 ev["outcome"] = "check_and_fix_changed_a_valid_result"
             ev["sig_in"] = _flatten((g.segmented(res) if res else g).geom, lambda x, y: 0)[0]
